@@ -314,6 +314,8 @@ class Engine:
         raise OutOfSubset('expected reference, got %s' % kind_of(v))
 
     def get_attr(self, st, recv, attr):
+        if isinstance(recv, VRef) and recv.cls in ('re.Pattern', 're.Match'):
+            return self._re_attr(st, recv, attr)
         if isinstance(recv, VRef):
             cls = recv.cls
             kind, dcls, obj = classes.lookup(cls, attr) if cls else ('none', None, None)
@@ -346,6 +348,15 @@ class Engine:
             return self.read_field(st, recv.t, self.storage(cls, attr), fk)
         if isinstance(recv, VPy) and isinstance(recv.obj, dict) and attr == 'get':
             return VFn('constdict_get', d=recv.obj)
+        import re as _re
+        if isinstance(recv, VPy) and isinstance(recv.obj, _re.Pattern) and attr == 'match':
+            return VFn('re_match', pat=recv)
+        if isinstance(recv, VRef) and recv.cls == 're.Pattern' and attr == 'match':
+            st.may_raise(recv.t == 0, 'AttributeError', 'None.match')
+            return VFn('re_match', pat=recv)
+        if isinstance(recv, VRef) and recv.cls == 're.Match' and attr in ('group', 'end', 'start'):
+            st.may_raise(recv.t == 0, 'AttributeError', 'None.%s' % attr)
+            return VFn('re_' + attr, m=recv)
         if isinstance(recv, VPy):
             try:
                 o = getattr(recv.obj, attr)
@@ -361,6 +372,37 @@ class Engine:
             st.may_raise(recv.isnone, 'AttributeError', 'None.%s' % attr)
             return self.get_attr(st, recv.val, attr)
         raise OutOfSubset('attribute %s of %s' % (attr, kind_of(recv)))
+
+    def _re_attr(self, st, recv, attr):
+        if recv.cls == 're.Pattern' and attr == 'match':
+            st.may_raise(recv.t == 0, 'AttributeError', 'None.match')
+            return VFn('re_match', pat=recv)
+        if recv.cls == 're.Match' and attr in ('group', 'end', 'start'):
+            st.may_raise(recv.t == 0, 'AttributeError', 'None.%s' % attr)
+            return VFn('re_' + attr, m=recv)
+        raise OutOfSubset('attribute %s of %s' % (attr, recv.cls))
+
+    def re_match(self, st, pat, args):
+        """re.Pattern.match(s[, pos]) in language mode (sound for every backtracking matcher): either None, or a match
+        that starts at pos and whose group(0) is the slice s[pos:pos+n] for some n >= 0.  Which words match is the
+        business of the RegLan obligations on the live patterns, not of this contract."""
+        s = args[0]
+        pos = args[1].t if len(args) > 1 else z3.IntVal(0)
+        if not isinstance(s, VStr):
+            raise OutOfSubset('match on %s' % kind_of(s))
+        m = z3.Int(fresh_name('match'))
+        n = z3.Int(fresh_name('mlen'))
+        st.assume(z3.Implies(m != 0, z3.And(n >= 0, pos >= 0, pos + n <= z3.Length(s.t))))
+        ref = VRef(m, 're.Match')
+        ref.match_info = (s.t, pos, n)
+        return ref
+
+    def re_group(self, st, m, args):
+        info = getattr(m, 'match_info', None)
+        if info is None or len(args) != 1 or not z3.is_int_value(self.as_int(args[0])) or self.as_int(args[0]).as_long() != 0:
+            raise OutOfSubset('match.group of this shape')
+        s, pos, n = info
+        return VStr(z3.SubString(s, pos, n))
 
     def is_leaf(self, t):
         return z3.Function('$isleaf', I, B)(t)
@@ -457,10 +499,20 @@ class Engine:
 
     def get_slice(self, st, recv, lo, hi):
         if isinstance(recv, VStr):
-            n = z3.Length(recv.t)
+            sl = self._as_slice(recv.t)
+            n = sl[2] if sl is not None else z3.Length(recv.t)
             a = self.clamp(self.as_int(lo), n) if lo is not None else z3.IntVal(0)
             b = self.clamp(self.as_int(hi), n) if hi is not None else n
-            return VStr(z3.SubString(recv.t, a, z3.If(b > a, b - a, 0)))
+            ln = z3.If(b > a, b - a, 0)
+            if sl is not None:
+                # slice of a slice of the same base: G[o:o+n][a:b] = G[o+a:o+b] when the inner slice is in range
+                base, o, _ = sl
+                ok = z3.And(o >= 0, n >= 0, o + n <= z3.Length(base))
+                v, _, _, _ = smt.check_sat(list(st.pc) + ([z3.And(st.guards)] if st.guards else []) + [z3.Not(ok)],
+                                           timeout_ms=2000, use_cvc5=False)
+                if v == 'unsat':
+                    return VStr(z3.SubString(base, o + a, ln))
+            return VStr(z3.SubString(recv.t, a, ln))
         if isinstance(recv, VList):
             n = st.llen(recv.t)
             a = self.clamp(self.as_int(lo), n) if lo is not None else z3.IntVal(0)
